@@ -3,7 +3,7 @@ import ast
 
 from .. import alg
 from ..alg import Poly, P, B, C, L, sym, mk_fn
-from ..interp import Interp, Hooks, Arr, Obj, Unk, SymTable, symarr, scalar, num, Foreign, Fmt
+from ..interp import Interp, Hooks, Arr, Obj, Unk, SymTable, symarr, scalar, num, Foreign, Fmt, count_atom
 from ..fitmodel import loc, compare
 from ..astutil import up, walk_local, stores, chain, calls, const, root_name, enclosing_map
 from ..rules import where
@@ -183,7 +183,7 @@ class NamedLookup(Foreign):
 class ConsumerHooks(Hooks):
     def __init__(self, repo, real_filter=False):
         self.real_filter = real_filter
-        self.captured, self.sink = [], _Sink()
+        self.captured, self.sink, self.events = [], _Sink(), []
         meta = Obj(repo.cls('fit_info', 'FitInfoMeta'), {'model_dir': 'DIR', 'filters': [], 'extinction_law': None})
         src = Obj(repo.cls('source.source', 'Source'), {'_valid': symarr('valid', ('w',), unit=num(1)), '_name': 'S'})
         self.record = Obj(repo.cls('fit_info', 'FitInfo'), {'source': src, 'chi2': symarr('chi2', (R_,), unit=num(1)), 'av': symarr('av', (R_,), unit=num(1)), 'sc': symarr('sc', (R_,), unit=num(1)),
@@ -201,9 +201,13 @@ class ConsumerHooks(Hooks):
         if q.endswith(':FitInfo.filter_table') and self.real_filter:
             return NotImplemented
         if q.endswith(':FitInfo.filter_table'):
+            self.events.append(('filter_table', None))
             self.captured.append((args, kwargs))
             return SymTable({'MODEL_NAME': symarr('fname', (R_,)), 'P1': symarr('fp1', (R_,), unit=num(1))}, R_)
-        if q.endswith(':FitInfo.keep') or q.endswith(':create_dir') or fi.name in ('get_axes', 'tex_friendly'):
+        if q.endswith(':FitInfo.keep'):
+            self.events.append(('keep', (args[1] if len(args) > 1 else kwargs.get('select_format'), args[0] if args else None)))
+            return None
+        if q.endswith(':create_dir') or fi.name in ('get_axes', 'tex_friendly'):
             return None
         return NotImplemented
 
@@ -221,8 +225,13 @@ def run_consumer(repo, module, func):
     h = ConsumerHooks(repo)
     I = Interp(repo, h)
     a, k = CONSUMER_ARGS[func]
-    r = I.call(repo.func(module, func), list(a), dict(k))
+    k = dict(k)
+    k['select_format'] = SELECTOR
+    r = I.call(repo.func(module, func), list(a), k)
     return I, h, r
+
+
+SELECTOR = ('F', 7)          # the selector handed to every consumer (keep() is summarised: only where it goes matters here)
 
 
 def check_callers_semantic(ctx):
@@ -240,6 +249,17 @@ def check_callers_semantic(ctx):
         except Exception as e:
             ctx.undecided('AGREE-6', inst, loc(fi), 'not interpreted: %s' % e); decided = False
             continue
+        # 'over the selected fits': the caller's selector is applied to the record before anything is looked up for it
+        inst_k = '%s: the selection asked for is applied before the parameters are looked up' % func
+        first_ft = next((i for i, ev in enumerate(h.events) if ev[0] == 'filter_table'), None)
+        keeps = [ev[1] for ev in h.events[:first_ft if first_ft is not None else len(h.events)] if ev[0] == 'keep']
+        if first_ft is not None and any(sel == SELECTOR and rec is h.record for sel, rec in keeps):
+            ctx.ok('AGREE-6', inst_k, loc(fi), 'info.keep(select_format) on the record, then filter_table')
+        elif first_ft is None or I.lost:
+            # the absence of the call is a verdict only when every call was followed
+            ctx.undecided('AGREE-6', inst_k, loc(fi), 'the consumer was not followed to its look-up' if first_ft is None else 'a call made for its effect was not modelled: %s' % (I.lost[0],)); decided = False
+        else:
+            ctx.violation('AGREE-6', inst_k, loc(fi), 'the record reaches filter_table %s' % ('after keep(%r), not the selector it was given' % (keeps[0][0],) if keeps else 'without keep(select_format): every fit in the file is listed'), 'selection-not-applied')
         tabs = [a[1] if len(a) > 1 else k.get('input_table') for a, k in h.captured]
         if not tabs or not all(isinstance(t, SymTable) for t in tabs):
             ctx.undecided('AGREE-6', inst, loc(fi), 'the table handed to filter_table was not captured (%r)' % (r,)); decided = False
@@ -276,11 +296,23 @@ def check_ranges_semantic(ctx):
     except Exception as e:
         ctx.undecided('ALG-20', 'ranges written', loc(fi), 'not interpreted: %s' % e)
         return False
-    seq = []
+    seq, seq_empty = [], []
+    ca = count_atom(R_)
+
+    def under(cond, n_):
+        """the condition a write is made under, for a result of n_ fits: True / False / None (not decided)"""
+        if cond is None:
+            return True
+        c_ = alg.rebuild(cond, lambda a: Poly.const(n_) if a == ca else None)
+        return (c_.const_value() != 0) if c_.is_const() else None
     for w, cond in h.sink.writes:
+        some, none = under(cond, 3), under(cond, 0)
         if isinstance(w, Fmt):
-            seq += [v.poly for v in w.values if isinstance(v, Arr)]
-        elif isinstance(w, Unk):
+            if some is not False:          # written for a result that has fits (or: not decided - then it may be)
+                seq += [v.poly for v in w.values if isinstance(v, Arr)]
+            if none is not False:
+                seq_empty += [v.poly for v in w.values if isinstance(v, Arr)]
+        elif isinstance(w, Unk) and some is not False:
             seq.append(None)
     if not [x for x in seq if x is not None]:
         ctx.undecided('ALG-20', 'ranges written', loc(fi), 'no formatted values captured')
@@ -295,10 +327,17 @@ def check_ranges_semantic(ctx):
             ctx.ok('ALG-20', inst, loc(fi), '(nanmin(x), x[0], nanmax(x)) written together')
             continue
         mentions = [alg.show(p_, 60) for p_ in seq if p_ is not None and alg.leaf_syms(p_)[0] & alg.leaf_syms(x)[0]]
-        if not mentions:
+        if not mentions and None not in seq and not I.lost:
+            # every write was followed and none of them, for a result that has fits, shows a value of x
+            ctx.violation('ALG-20', inst, loc(fi), 'nothing computed from it is written for a result that has fits', 'range-missing')
+        elif not mentions:
             ctx.undecided('ALG-20', inst, loc(fi), 'values written for it not captured'); decided = False
         else:
             ctx.violation('ALG-20', inst, loc(fi), 'writes %s for it, not (nanmin(x), x[0], nanmax(x))' % mentions[:4], 'range-triple')
+    # a result left with no fits has no best fit to print: x[0] does not exist
+    firsts = [p_ for p_ in seq_empty if any(p_ == mk_fn('at', B(R_, x_), P(Poly())) for x_ in (sym('chi2', R_), sym('av', R_), sym('sc', R_), sym('fp1', R_)))]
+    ctx.expect(not firsts, 'ALG-20', 'a result with no fits left', loc(fi), 'no element of an empty array is read: the columns are filled with the no-data mark',
+               'the best-fit value x[0] is written although the selection left no fit (IndexError)', 'empty-result')
     # the two counts printed with every source
     v = sym('valid', 'w')
     nd = alg.sum_over(alg.eq(v, 1), 'w') + alg.sum_over(alg.eq(v, 4), 'w')
